@@ -240,6 +240,8 @@ func allowed(newImpl func() drv.Driver, sc scenario) map[string]bool {
 						if r.Err == drv.EInternal || r.Err == drv.EForced {
 							b.err = r.Err
 						}
+					case c.op.K == drv.KBatchGet && r.Err == drv.ENotFound:
+						b.err = r.Err // a table that does not exist fails the whole call
 					case c.op.K == drv.KBatchGet:
 						if r.Err != "" || len(r.Item) == 0 {
 							b.unproc++ // errors and absent keys are reported as unprocessed keys (SDK v2)
@@ -275,6 +277,7 @@ func outcomeKey(sc scenario, resps map[[2]int]string, fail, obs string) string {
 
 type stats struct {
 	Schedules, Steps, Scenarios, Races, DistinctOutcomes int64
+	Touches, HBChecked                                   int64
 	MaxChoices                                           int64
 	Capped                                               int64
 }
@@ -328,7 +331,13 @@ func explore(run *ev.Run, st *stats, newImpl func() drv.Driver, drvName string, 
 			ev.Progress()
 		}
 		atomic.AddInt64(&st.Schedules, 1)
-		atomic.AddInt64(&st.Steps, int64(len(s.Events)))
+		nsteps := 0
+		for i := range s.Events {
+			if s.Events[i].Kind != "touch" && s.Events[i].Kind != "acquire" && s.Events[i].Kind != "racquire" {
+				nsteps++
+			}
+		}
+		atomic.AddInt64(&st.Steps, int64(nsteps))
 		if int64(len(s.Choices)) > atomic.LoadInt64(&st.MaxChoices) {
 			atomic.StoreInt64(&st.MaxChoices, int64(len(s.Choices)))
 		}
@@ -357,6 +366,11 @@ func explore(run *ev.Run, st *stats, newImpl func() drv.Driver, drvName string, 
 		for _, rc := range races(s.Events) {
 			atomic.AddInt64(&st.Races, 1)
 			report("C11|data-race|"+rc.field+"|"+rc.calls, fmt.Sprintf("scenario %s (init %s): %s", sc.name, sc.init, rc.detail), taken)
+		}
+		// happens-before race check over every recorded access, including the silent ones on maps
+		// and slices anywhere in the library
+		for _, rc := range hbRaces(s.Events, len(sc.threads), st) {
+			report("C11|unordered-accesses|"+rc.field+"|"+rc.calls, fmt.Sprintf("scenario %s (init %s): %s", sc.name, sc.init, rc.detail), taken)
 		}
 		// linearizability: the outcome equals that of some sequential order
 		key := outcomeKey(sc, resps, failState(impl), observe(impl))
@@ -486,6 +500,118 @@ func races(evs []vs.Event) []raceRep {
 				seen[sig] = true
 				out = append(out, raceRep{a.e.Field, "unlocked:" + strings.Join(unlocked, "~"), fmt.Sprintf("%s (%s, write=%v, locks=%d) by thread %d in %s vs %s (write=%v, locks=%d) by thread %d in %s",
 					a.e.Field, a.e.Where, a.e.Write, len(a.e.Locks), a.e.Thread, a.call, b.e.Where, b.e.Write, len(b.e.Locks), b.e.Thread, b.call)})
+			}
+		}
+	}
+	return out
+}
+
+// hbRaces is a vector-clock (happens-before) race check over the recorded events: a mutex release
+// happens before the next acquisition of that mutex (a reader's release only before the next
+// writer), program order within a thread; two accesses to the same location from different threads,
+// one of them a write, that are not ordered are reported. Unlike the lockset rule this needs no
+// lock to be named: it also judges accesses made after the mutex was released on data that another
+// call changes under the mutex (an item map handed out of the critical section).
+func hbRaces(evs []vs.Event, n int, st *stats) []raceRep {
+	type vc []int
+	clock := make([]vc, n)
+	for i := range clock {
+		clock[i] = make(vc, n)
+		clock[i][i] = 1
+	}
+	join := func(a, b vc) {
+		for i := range a {
+			if b[i] > a[i] {
+				a[i] = b[i]
+			}
+		}
+	}
+	relAll := map[interface{}]vc{}   // every release (writers and readers)
+	relWrite := map[interface{}]vc{} // releases of exclusive holds
+	type last struct {
+		wThread, wClock int
+		wWhere, wCall   string
+		rClock          []int
+		rWhere, rCall   []string
+	}
+	locs := map[string]*last{}
+	cur := map[int]string{}
+	seen := map[string]bool{}
+	var out []raceRep
+	rep := func(e vs.Event, what, where1, call1, where2, call2 string) {
+		ws := []string{where1, where2}
+		sort.Strings(ws)
+		field := e.Field
+		if e.Kind == "touch" {
+			field = "map-or-slice"
+		}
+		sig := field + "|" + ws[0] + "~" + ws[1]
+		if seen[sig] {
+			return
+		}
+		seen[sig] = true
+		out = append(out, raceRep{field, ws[0] + "~" + ws[1], fmt.Sprintf("%s: %s in %s and %s in %s are not ordered by any mutex hand-over (%s)", field, where1, call1, where2, call2, what)})
+	}
+	for _, e := range evs {
+		t := e.Thread
+		if t < 0 || t >= n {
+			continue
+		}
+		switch e.Kind {
+		case "begin":
+			cur[t] = e.Field
+		case "acquire":
+			if r, ok := relAll[e.Ptr]; ok {
+				join(clock[t], r)
+			}
+		case "racquire":
+			if r, ok := relWrite[e.Ptr]; ok {
+				join(clock[t], r)
+			}
+		case "unlock":
+			c := append(vc{}, clock[t]...)
+			relWrite[e.Ptr] = c
+			if r, ok := relAll[e.Ptr]; ok {
+				c2 := append(vc{}, r...)
+				join(c2, c)
+				relAll[e.Ptr] = c2
+			} else {
+				relAll[e.Ptr] = c
+			}
+			clock[t][t]++
+		case "runlock":
+			c := append(vc{}, clock[t]...)
+			if r, ok := relAll[e.Ptr]; ok {
+				c2 := append(vc{}, r...)
+				join(c2, c)
+				relAll[e.Ptr] = c2
+			} else {
+				relAll[e.Ptr] = c
+			}
+			clock[t][t]++
+		case "access", "touch":
+			if e.Kind == "touch" {
+				atomic.AddInt64(&st.Touches, 1)
+			}
+			atomic.AddInt64(&st.HBChecked, 1)
+			k := e.Key()
+			l := locs[k]
+			if l == nil {
+				l = &last{wThread: -1, rClock: make([]int, n), rWhere: make([]string, n), rCall: make([]string, n)}
+				locs[k] = l
+			}
+			if l.wThread >= 0 && l.wThread != t && l.wClock > clock[t][l.wThread] {
+				rep(e, "write then "+map[bool]string{true: "write", false: "read"}[e.Write], l.wWhere, l.wCall, e.Where, cur[t])
+			}
+			if e.Write {
+				for u := 0; u < n; u++ {
+					if u != t && l.rClock[u] > clock[t][u] {
+						rep(e, "read then write", l.rWhere[u], l.rCall[u], e.Where, cur[t])
+					}
+				}
+				l.wThread, l.wClock, l.wWhere, l.wCall = t, clock[t][t], e.Where, cur[t]
+			} else {
+				l.rClock[t], l.rWhere[t], l.rCall[t] = clock[t][t], e.Where, cur[t]
 			}
 		}
 	}
@@ -672,20 +798,22 @@ func buildJobs(thorough bool) []job {
 
 func coverage(st *stats, njobs int) map[string]interface{} {
 	cov := map[string]interface{}{
-		"states":                        st.Steps,
-		"transitions":                   st.Steps,
-		"traces_validated_against_impl": st.Schedules,
-		"schedules":                     st.Schedules,
-		"scenarios":                     st.Scenarios,
-		"scenarios_planned":             njobs,
-		"max_choice_points":             st.MaxChoices,
-		"distinct_outcomes_summed":      st.DistinctOutcomes,
-		"lockset_violations_seen":       st.Races,
-		"exhaustive":                    st.Capped == 0,
-		"samples":                       []interface{}{"Put(k1) || Upd(k1,ADD n 1) from init=present, preemption bound 1", "3 x ADD 1, bound 2", "CreateTable;Put || CreateTable;Put"},
-		"bounds":                        "every pair of the call menu (incl. a call with itself) from the states {table absent, table empty, k1 present}, and Query/Scan through a secondary index against every call from the state {k1, k2, GSI on a}: all schedules with at most 1 (thorough: 2) preemptions at Lock/Unlock/Access points of the client packages and at every statement of core/table.go and core/index.go; named N-thread scenarios and two-call threads with at most 2 preemptions; thorough: triples with at most 1 preemption; both SDK clients",
-		"oracle":                        "per execution: no deadlock (no enabled thread), no livelock, no panic, lockset race freedom over the recorded accesses to Client fields and core.Table / index objects, and the recorded responses plus the final observation equal those of some sequential order of the same calls run on a fresh client (batch calls decomposed into their requests)",
-		"states_note":                   "states = scheduling steps executed (every step runs the real, instrumented client code); schedules = complete executions",
+		"states":                                    st.Steps,
+		"transitions":                               st.Steps,
+		"traces_validated_against_impl":             st.Schedules,
+		"schedules":                                 st.Schedules,
+		"scenarios":                                 st.Scenarios,
+		"scenarios_planned":                         njobs,
+		"max_choice_points":                         st.MaxChoices,
+		"distinct_outcomes_summed":                  st.DistinctOutcomes,
+		"lockset_violations_seen":                   st.Races,
+		"map_and_slice_accesses_recorded":           st.Touches,
+		"accesses_checked_for_happens_before_order": st.HBChecked,
+		"exhaustive":                                st.Capped == 0,
+		"samples":                                   []interface{}{"Put(k1) || Upd(k1,ADD n 1) from init=present, preemption bound 1", "3 x ADD 1, bound 2", "CreateTable;Put || CreateTable;Put"},
+		"bounds":                                    "every pair of the call menu (incl. a call with itself) from the states {table absent, table empty, k1 present}, and Query/Scan through a secondary index against every call from the state {k1, k2, GSI on a}: all schedules with at most 1 (thorough: 2) preemptions at Lock/Unlock/Access points of the client packages and at every statement of core/table.go and core/index.go; named N-thread scenarios and two-call threads with at most 2 preemptions; thorough: triples with at most 1 preemption; both SDK clients",
+		"oracle":                                    "per execution: no deadlock (no enabled thread), no livelock, no panic, lockset race freedom over the recorded accesses to Client fields and core.Table / index objects, and the recorded responses plus the final observation equal those of some sequential order of the same calls run on a fresh client (batch calls decomposed into their requests)",
+		"states_note":                               "states = scheduling steps executed (every step runs the real, instrumented client code); schedules = complete executions",
 	}
 	if st.Capped != 0 {
 		cov["cap_hit"] = "time cap"
@@ -788,6 +916,8 @@ func runSharded(run *ev.Run, tier string, njobs int) int {
 		total.Steps += r.Stats.Steps
 		total.Scenarios += r.Stats.Scenarios
 		total.Races += r.Stats.Races
+		total.Touches += r.Stats.Touches
+		total.HBChecked += r.Stats.HBChecked
 		total.DistinctOutcomes += r.Stats.DistinctOutcomes
 		if r.Stats.MaxChoices > total.MaxChoices {
 			total.MaxChoices = r.Stats.MaxChoices
